@@ -59,7 +59,7 @@ template <size_t K, size_t MG> struct MOp {
     }
     bool operator()(std::vector<E*>& o, std::string& ret) {
         size_t dot = op.rfind('.');
-        if (dot != std::string::npos) {
+        if (dot != std::string::npos && op != "exp.val" && op != "reduction.val") {
             std::string b = op.substr(0, dot), t = op.substr(dot + 1);
             if (t == "u64" && b == "exp") { exp(P(0), P(1), (uint64_t) strtoull(x[0].c_str(), 0, 10)); return true; }
             if (t == "ru" && b == "exp") { Integer z(x[0].c_str()); ruint<K> e(z); exp(P(0), P(1), e); return true; }
@@ -67,7 +67,10 @@ template <size_t K, size_t MG> struct MOp {
             if (t == "i64") return word<int64_t>(o, ret, b, (int64_t) strtoll(x[0].c_str(), 0, 10));
             return false;
         }
-        if (op == "add") add(P(0), P(1), P(2));
+        // sub-object aliasing: a ruint<K> operand that is the member Value of an rmint position (possibly of the destination)
+        if (op == "exp.val") exp(P(0), P(1), P(2).Value);                 // (a, b, e): exponent = e.Value
+        else if (op == "reduction.val") reduction(P(0), P(1).Value);
+        else if (op == "add") add(P(0), P(1), P(2));
         else if (op == "addin") add(P(0), P(1));
         else if (op == "sub") sub(P(0), P(1), P(2));
         else if (op == "subin") sub(P(0), P(1));
